@@ -148,6 +148,8 @@ static snippet_t SNIPS[] = {
 	/* 8 */ { "[A]\r\n\r\n; c\r\n[b]\n\n\n", 0, 4, { {I_SECT, "A", 0}, {I_OTHER, 0, 0}, {I_OTHER, 0, 0}, {I_SECT, "b", 0} }, 2, 0 },
 	/* 9 */ { "[Ab]\n", 0, 1, { {I_SECT, "Ab", 0} }, 0, 0 },	/* a section header as the LAST line of the store (enumeration offsets reach lines_count) */
 	/* 10 */ { "[b]  ;t\r\nk=1\n", 0, 2, { {I_SECT, "b", 0}, {I_VAL, "k", "1"} }, 0, 0 },	/* bytes after the ']' of a header: kept in the line, not part of the name */
+	/* 11 */ { "[b]\r\n\r\n[a]\nk=1\n", 0, 4, { {I_SECT, "b", 0}, {I_OTHER, 0, 0}, {I_SECT, "a", 0}, {I_VAL, "k", "1"} }, 0, 0 },	/* a section with nothing but a blank line, followed by another one: a later set into it must land in it */
+	/* 12 */ { "[A]\n[b]\nxy=2\n", 0, 3, { {I_SECT, "A", 0}, {I_SECT, "b", 0}, {I_VAL, "xy", "2"} }, 0, 0 },	/* an empty section directly followed by the next header */
 };
 
 /* ------------------------------------------------------------------ operations */
@@ -1407,6 +1409,8 @@ phases_init(int inplace) {
 	add_parse_op(&PH_DEEP, 5, 0);
 	add_parse_op(&PH_DEEP, 9, 0);
 	add_parse_op(&PH_DEEP, 10, 0);
+	add_parse_op(&PH_DEEP, 11, 0);
+	add_parse_op(&PH_DEEP, 12, 0);
 	add_set_ops(&PH_DEEP, 2, 2, "012", 3);
 	add_num_op(&PH_DEEP, OP_SET_UINT, 0, 1, 100);
 	add_one_set(&PH_DEEP, 3, 0, 1);	/* a section whose name contains ']' and '[' */
@@ -1420,6 +1424,8 @@ phases_init(int inplace) {
 		add_parse_op(&PH_MIXED, s, 0);
 	add_parse_op(&PH_MIXED, 9, 0);
 	add_parse_op(&PH_MIXED, 10, 0);
+	add_parse_op(&PH_MIXED, 11, 0);
+	add_parse_op(&PH_MIXED, 12, 0);
 	add_set_ops(&PH_MIXED, 3, 3, "01234", 7);
 	add_num_op(&PH_MIXED, OP_SET_INT, 0, 0, -12);
 	add_num_op(&PH_MIXED, OP_SET_UINT, 1, 2, 100);
